@@ -276,8 +276,15 @@ def check_real_print(mpm, rec, raw, s, n, case, what, r=None):
             key = 'C08/to_str/more-than-n-digits'
         else:
             key = 'C08/to_digits_exp/' + print_path(raw, n)
+        sev = None
+        if key.endswith('huge-exponent-approx-power-of-ten'):
+            # severity: 64 + log2(distance beyond the half-way point, in units of the last printed place); the documented
+            # algorithm (power of ten and quotient rounded to 3.32(n+3)+10 bits) bounds it a priori by 3*2^-19 units -> <= 46
+            ex = X.excess_units(raw, S, k, n)
+            sev = max(0, 64 + int(math.floor(math.log(ex, 2)))) if ex > 0 else 0
+            rec.maximum('huge-exponent path: log2(excess beyond half a unit)+64', sev, {'raw': raw, 'n': n, 'printed': s[:80]})
         rec.violation(key, '%s: printed literal is not a nearest %d-digit decimal (%s)' % (what, n, detail), case, s[:300],
-                      'value within half a unit in the last place of the printed literal')
+                      'value within half a unit in the last place of the printed literal', severity=sev)
     return pk
 
 
